@@ -302,6 +302,12 @@ func (e *Engine) sprintf(st *State, fr *Frame, format string, args []Value, pos 
 }
 
 func (e *Engine) concat(a, b StrV) StrV {
+	if !a.Opaque && len(a.B) == 0 {
+		return b
+	}
+	if !b.Opaque && len(b.B) == 0 {
+		return a
+	}
 	if a.Opaque || b.Opaque {
 		la, lb := a.MinLen, b.MinLen
 		if !a.Opaque {
@@ -343,6 +349,12 @@ func (e *Engine) formatArg(st *State, fr *Frame, verb byte, arg Value, width int
 	}
 	if iv.T == nil {
 		return []fmtAlt{{st: st, s: e.pad(e.strConst("<nil>"), width, zero, minus)}}
+	}
+	// network addresses: opaque text that remembers the address it was formatted from (for Dial)
+	if ts := iv.T.String(); ts == "*net.UDPAddr" || ts == "*net.TCPAddr" {
+		if p, ok := iv.V.(PtrV); ok && !p.IsNil() {
+			return []fmtAlt{{st: st, s: StrV{Opaque: true, Note: "text of " + ts, MinLen: 1, Ref: p}}}
+		}
 	}
 	// error / Stringer take precedence for %v %s
 	if verb == 'v' || verb == 's' || verb == 'q' {
